@@ -29,7 +29,11 @@ var globalSwaps = map[string][2]string{
 var dirSwaps = map[string]map[string][2]string{
 	"lib/atomicfile":    {"runtime": {"runtime", modPath + "/zz_verif/simruntime"}},
 	"cmdline/remotecmd": {"net": {"net", modPath + "/zz_verif/simnet"}},
-	"lib/audit":         {"github.com/streadway/amqp": {"amqp", modPath + "/zz_verif/simamqp"}},
+	"lib/audit": {
+		"github.com/streadway/amqp": {"amqp", modPath + "/zz_verif/simamqp"},
+		// (not imported today; a raw write(2) on the audit file must not go around the simulated disk)
+		"syscall": {"syscall", modPath + "/zz_verif/simsyscall"},
+	},
 	// the timestamp client builds its own http.Transport
 	"lib/pkcs9/tsclient": {"net/http": {"http", modPath + "/zz_verif/simhttp"}},
 	// the inside of the worker child process: inherited sockets, notifications, signals, its HTTP server
